@@ -164,7 +164,7 @@ theorem history_independent_gen {W : Widths} (hdm : W.dm = true) (hblank : cellW
 theorem genW_measures_as_drawn : genW.dm = true := by decide
 
 /-- the trailing blank of `BufferControl` content is one column wide -/
-theorem genW_blank : cellW genW ' ' = 1 := by decide
+theorem genW_blank : cellW genW ' ' = 1 := by decide +kernel
 
 /-- every `Char.display_mappings` entry is drawn at least one column wide (so a control character
     under the cursor always has a cell of its own) -/
@@ -172,6 +172,60 @@ def DisplayWide (t : List (Nat × List Nat)) : Bool :=
   t.all fun p => 1 ≤ (p.2.map fun n => Gen.C11.rawWidth (Char.ofNat n)).sum
 
 theorem gen_ok : DisplayWide Gen.C11.displayMappings = true := by decide +kernel
+
+/-! the width tables cover ALL code points 0 .. 0x10FFFF (range-compressed); their shape is re-decided by a
+    linear Bool walk over the ~500 ranges, and bridge lemmas turn the walk into statements about every
+    character -/
+
+/-- ranges are non-empty, inside the code space, strictly increasing and not adjacent (maximal runs) -/
+def rangesWF : List (Nat × Nat) → Bool
+  | [] => true
+  | [(a, b)] => Nat.ble a b && Nat.blt b 1114112
+  | (a, b) :: (a', b') :: rest => Nat.ble a b && Nat.blt (b + 1) a' && rangesWF ((a', b') :: rest)
+
+/-- no range of `xs` meets a range of `ys` -/
+def rangesApart (xs ys : List (Nat × Nat)) : Bool :=
+  xs.all fun p => ys.all fun q => Nat.blt p.2 q.1 || Nat.blt q.2 p.1
+
+theorem gen_width_tables_wf :
+    rangesWF Gen.C11.zeroWidthRanges = true ∧ rangesWF Gen.C11.wideRanges = true ∧
+      rangesApart Gen.C11.zeroWidthRanges Gen.C11.wideRanges = true ∧ Gen.C11.otherWidthRanges = [] ∧
+      Gen.C11.scannedAll = [(0, 1114112)] := by
+  decide +kernel
+
+theorem inRanges_iff (rs : List (Nat × Nat)) (c : Char) :
+    Gen.C11.inRanges rs c = true ↔ ∃ r ∈ rs, r.1 ≤ c.toNat ∧ c.toNat ≤ r.2 := by
+  unfold Gen.C11.inRanges
+  rw [List.any_eq_true]
+  constructor
+  · rintro ⟨r, hr, h⟩; exact ⟨r, hr, by simpa using h⟩
+  · rintro ⟨r, hr, h⟩; exact ⟨r, hr, by simpa using h⟩
+
+/-- bridge: `get_cwidth` of the generated table, for EVERY character, by the range that holds it -/
+theorem genW_rw_spec (c : Char) :
+    (genW.rw c = 0 ↔ ∃ r ∈ Gen.C11.zeroWidthRanges, r.1 ≤ c.toNat ∧ c.toNat ≤ r.2) ∧
+    (genW.rw c = 2 ↔ ∃ r ∈ Gen.C11.wideRanges, r.1 ≤ c.toNat ∧ c.toNat ≤ r.2) ∧
+    (genW.rw c = 0 ∨ genW.rw c = 1 ∨ genW.rw c = 2) := by
+  have hap := gen_width_tables_wf.2.2.1
+  have hrw : genW.rw c = Gen.C11.rawWidth c := rfl
+  rw [hrw, ← inRanges_iff, ← inRanges_iff]
+  unfold Gen.C11.rawWidth
+  by_cases hz : Gen.C11.inRanges Gen.C11.zeroWidthRanges c = true
+  · have hw : Gen.C11.inRanges Gen.C11.wideRanges c = false := by
+      cases hw : Gen.C11.inRanges Gen.C11.wideRanges c with
+      | false => rfl
+      | true =>
+        obtain ⟨p, hp, hp1, hp2⟩ := (inRanges_iff _ c).mp hz
+        obtain ⟨q, hq, hq1, hq2⟩ := (inRanges_iff _ c).mp hw
+        unfold rangesApart at hap
+        rw [List.all_eq_true] at hap
+        have := hap p hp
+        rw [List.all_eq_true] at this
+        have := this q hq
+        simp [Nat.blt_eq] at this
+        omega
+    simp [hz, hw]
+  · by_cases hw : Gen.C11.inRanges Gen.C11.wideRanges c = true <;> simp [hz, hw]
 
 /-- the "infinite" height literal of `UIContent.get_height_for_line`, read from the source text -/
 theorem gen_height_infinite : BIG = Gen.C11.heightInfinite := by decide
@@ -185,6 +239,13 @@ theorem render_cursor_shown_genW (c : Cfg) (hps : ∀ p ∈ c.procs, ProcOK p) (
     (text : Text) (cur : Nat) (s : Scroll) (hd : RenderDomain genW c tw height w wrap text cur s) :
     CursorShown genW c height text cur (render genW c tw height wrap text cur s) :=
   render_cursor_shown genW_measures_as_drawn genW_blank c hps tw height w wrap text cur s hd
+
+
+-- characters outside the round-1 scan ranges are measured now: Bopomofo, Hangul, an emoji (2 columns);
+-- combining grave, zero width space, a variation selector of plane 14 (0 columns)
+example : ([0x3105, 0xAC00, 0x1F600, 0x0300, 0x200B, 0xE0100, 0x41].map fun n => genW.rw (Char.ofNat n)) =
+    [2, 2, 2, 0, 0, 0, 1] := by decide +kernel
+example := (genW_rw_spec (Char.ofNat 0x1F600)).2.1
 
 /-! ### non-vacuity: double-width, combining (zero-width) and control characters -/
 
